@@ -54,14 +54,20 @@ def explore(col, V, body, features, make_replay, label, timeout_ms=30000, kind='
             vals = V.values(m) if m is not None else {}
             f = dict(features)
             f['exception'] = type(p.exc).__name__
-            col.violation('exception', f, make_replay(vals, 'exception'),
+            rp = make_replay(vals, 'exception')
+            for note in (p.notes or []):
+                if isinstance(note, tuple) and len(note) == 2 and note[0] == '_replay':
+                    rp.update(note[1])      # path-specific replay data recorded by the body before the exception
+            col.violation('exception', f, rp,
                           note=''.join(traceback.format_exception_only(type(p.exc), p.exc))[-400:])
             continue
         for item in p.value:
             claim, name = item[0], item[1]
             f = dict(features)
+            extra_replay = None
             if len(item) > 2:
                 f.update(item[2])
+                extra_replay = f.pop('_replay', None)     # path-specific data for the replay (not a feature)
             f['claim'] = name
             st, m = eng.prove(claim, pc=p.pc, label=label + ':' + name, extra=p.facts)
             if st == 'unsat':
@@ -71,7 +77,10 @@ def explore(col, V, body, features, make_replay, label, timeout_ms=30000, kind='
                 continue
             gm = grid_model(eng, sx.BoolZ(sx.Not(claim)), p.pc, V)
             vals = V.values(gm if gm is not None else m)
-            col.violation(kind, f, make_replay(vals, name), note=f'counterexample values {vals}')
+            rp = make_replay(vals, name)
+            if extra_replay:
+                rp.update(extra_replay)
+            col.violation(kind, f, rp, note=f'counterexample values {vals}')
 
 
 def all_same(xs, ys):
